@@ -81,6 +81,44 @@ def command_line(schema, include, output):
 		'--generator', 'generator.Generator']
 
 
+LEFTOVERS = ('same', 'crlf', 'cr', 'mixed-newlines', 'trailing-newline', 'no-final-newline', 'trailing-text', 'truncated', 'empty',
+	'other-net', 'bom', 'trailing-spaces', 'one-byte-changed')
+
+
+def leftover_bytes(kind, net):
+	"""What a previous run (of this or an earlier generator, on this or another platform) may have left as <output>/__init__.py."""
+	current = checked_in(net)
+	if kind == 'same':
+		return current
+	if kind == 'crlf':
+		return current.replace(b'\n', b'\r\n')
+	if kind == 'cr':
+		return current.replace(b'\n', b'\r')
+	if kind == 'mixed-newlines':
+		lines = current.split(b'\n')
+		return b''.join(line + (b'\r\n' if index % 3 == 0 else b'\n') for index, line in enumerate(lines[:-1])) + lines[-1]
+	if kind == 'trailing-newline':
+		return current + b'\n'
+	if kind == 'no-final-newline':
+		return current.rstrip(b'\n')
+	if kind == 'trailing-text':
+		return current + b'# left over\n'
+	if kind == 'truncated':
+		return current[:len(current) // 2]
+	if kind == 'empty':
+		return b''
+	if kind == 'other-net':
+		return checked_in([other for other in NETWORKS if other != net][0])
+	if kind == 'bom':
+		return b'\xef\xbb\xbf' + current
+	if kind == 'trailing-spaces':
+		return current.replace(b'\n', b' \n', 50)
+	if kind == 'one-byte-changed':
+		middle = len(current) // 2
+		return current[:middle] + bytes([current[middle] ^ 1]) + current[middle + 1:]
+	raise ValueError(kind)
+
+
 def invoke(spec, scratch):
 	"""Runs one invocation described by `spec` (a plain dict, also stored in replays); returns (bytes | None, listing, detail)."""
 	net = spec['net']
@@ -93,7 +131,10 @@ def invoke(spec, scratch):
 		copy_tree_in_order(schema_paths(net)[1], root, spec['schema_copy'])
 	schema, include = schema_paths(net, root)
 	cwd = {'root': Path('/'), 'repo': REPO, 'scratch': Path(scratch), 'parent': work}[spec['cwd']]
-	if spec['prepopulated']:
+	if spec.get('leftover'):
+		output.mkdir(exist_ok=True)
+		(output / '__init__.py').write_bytes(leftover_bytes(spec['leftover'], net))
+	elif spec['prepopulated']:
 		output.mkdir(exist_ok=True)
 		(output / '__init__.py').write_text(STALE + '# padding\n' * 40000, encoding='utf8')   # longer than any generated module
 		(output / 'stale_extra.py').write_text(STALE, encoding='utf8')
@@ -184,6 +225,10 @@ def matrix(check):
 			specs.append({
 				'kind': 'cli', 'net': net, 'seed': seeds[-1], 'cwd': 'scratch', 'relative': False, 'prepopulated': False, 'schema_copy': order,
 				'id': f'{net}-copy-{order.replace(":", "-")}'})
+		for index, leftover in enumerate(LEFTOVERS):
+			specs.append({
+				'kind': 'cli', 'net': net, 'seed': seeds[index % len(seeds)], 'cwd': 'scratch', 'relative': False, 'prepopulated': True, 'leftover': leftover,
+				'id': f'{net}-leftover-{leftover}'})
 		for seed in seeds[:4]:
 			specs.append({
 				'kind': 'cli', 'net': net, 'seed': seed, 'cwd': 'parent', 'relative': True, 'prepopulated': False, 'repeat': 2,
@@ -197,7 +242,7 @@ def describe(spec):
 	if spec['kind'] == 'in-process':
 		return f'in-process sequence {spec["sequence"]} seed={spec["seed"]}'
 	return f'net={spec["net"]} seed={spec["seed"]} cwd={spec["cwd"]} paths={"relative" if spec["relative"] else "absolute"} ' \
-		f'output={"pre-populated" if spec["prepopulated"] else "fresh"}' + (f' schema-copy={spec["schema_copy"]}' if spec.get('schema_copy') else '') \
+		f'output={("leftover:" + spec["leftover"]) if spec.get("leftover") else "pre-populated" if spec["prepopulated"] else "fresh"}' + (f' schema-copy={spec["schema_copy"]}' if spec.get('schema_copy') else '') \
 		+ (f' runs={spec["repeat"]}' if spec.get('repeat') else '')
 
 
